@@ -82,8 +82,11 @@ def run(tier, rep, ev):
 
     def mk(chain, header, target, i, pw=None):
         needs = "AES" in chain or header == "encrypted"
+        block = R.choice(blocks[1:]) if i % 5 else None
+        # (with the default 1 MiB block the members are MiB-sized: a chunk limit of a few bytes would mean 10^5 decode steps per member)
+        limit = (R.choice(limits[1:]) if i % 3 else None) if block else R.choice([None, 300000, 1000003])
         return {"chain": chain, "password": needs or (pw if pw is not None else R.random() < 0.3), "header": header, "target": target,
-                "block": R.choice(blocks[1:]) if i % 5 else None, "limit": R.choice(limits[1:]) if i % 3 else None,
+                "block": block, "limit": limit,
                 "seed": R.getrandbits(32), "extract": ["path", "factory", "hash", "factory"][i % 4], "wd": os.path.join(base, f"c{i}"),
                 "params": i % 2 == 0}
 
